@@ -140,6 +140,9 @@ func (c20) coldStart(c *fw.Case) {
 }
 
 func (p c20) Run(c *fw.Case) {
+	if c.Idx%6 == 5 {
+		failedCalls(c) // call history: failed calls before the case must leave nothing behind
+	}
 	c20Cold.Do(func() { p.coldStart(c) })
 	r := c.R
 	populated := map[string]bool{}
